@@ -37,7 +37,7 @@ PROPERTY = "C17"
 HERMETIC = True  # one forked child per run: deserialization state kept at module level must not travel between runs
 LEVEL = "exploration"
 TIERS = {
-    "quick": {"wall": 33, "optimize_wall": 7, "chunk": 10, "shrink_budget": 200, "shrink_wall": 60, "per_run_cap": 300.0},
+    "quick": {"max_runs": 400, "optimize_runs": 80, "wall": 420, "optimize_wall": 180, "chunk": 10, "shrink_budget": 200, "shrink_wall": 60, "per_run_cap": 300.0},
     "thorough": {"wall": 900, "optimize_wall": 120, "chunk": 20, "shrink_budget": 400, "shrink_wall": 240, "per_run_cap": 600.0},
 }
 RULE = (
@@ -64,6 +64,7 @@ FIELD_OPS = [
     "ext_numbers", "dup_initializer", "dup_function", "dangling_output", "dup_graph_input", "dangling_device", "deep_nesting", "dup_value_info",
     "tensor_metadata", "missing_opset", "ref_attr", "sparse", "quant", "negative_dims", "string_tensor", "input_is_output", "sub_output_outer", "sub_output_outer", "sub_input_outer", "sub_init_outer", "output_is_initializer", "output_is_initializer",
     "function_identity", "function_identity", "func_inner_shadow", "func_inner_shadow", "dup_keyed", "dup_keyed", "storage_field", "storage_field", "quant", "dim_expr", "bad_utf8_attr", "bad_utf8_attr", "sibling_scope", "sibling_scope",
+    "function_overloads", "function_overloads",
 ]  # fmt: skip
 _IGNORED_PREFIXES = tuple(p for p in {sys.prefix, sys.base_prefix, "/repo", "/verif", "/venv", "/root/.pyenv", "/usr/lib/python3", "/usr/lib/python3.12", "/proc/self"} if p)
 
@@ -373,6 +374,24 @@ def damage_fields(p: onnx.ModelProto, opsl: list) -> None:
                 vi = f.value_info.add()
                 vi.name = f.output[0]
                 vi.type.tensor_type.elem_type = 1
+            if (c >> 5) % 2:
+                p.ir_version = [7, 8, 9][(c >> 6) % 3]
+        elif kind == "function_overloads" and p.functions:
+            # two overloads of one function - a legal model (the identifier of a function is domain, name AND overload):
+            # a copy of a function under another overload, part of the call sites retargeted to it, optionally at an IR
+            # version that predates the overload field. With dup_function and function_identity alone the pair only
+            # arises when both are drawn for the same variant.
+            src = p.functions[c % len(p.functions)]
+            f = p.functions.add()
+            f.CopyFrom(src)
+            f.overload = ["ov_b", "0", "ov/2"][(c >> 3) % 3]
+            k = 0
+            for g2 in list(_all_graphs(p)) + list(p.functions):
+                for n2 in (g2.node if hasattr(g2, "node") else []):
+                    if (n2.domain, n2.op_type, n2.overload) == (src.domain, src.name, src.overload):
+                        k += 1
+                        if (k + (c >> 8)) % 2:
+                            n2.overload = f.overload
             if (c >> 5) % 2:
                 p.ir_version = [7, 8, 9][(c >> 6) % 3]
         elif kind == "func_inner_shadow" and p.functions:
